@@ -12,6 +12,9 @@ PROBES = ['[C][=C][#C]', '[S][=S][=S][=S]', '[N][=N][#N][Branch1][C][F]', '[Fe][
           '[P][Branch1][C][F][Branch1][C][F][Branch1][C][F][Branch1][C][F][F]', '[Zr-3][=C]', '[Cl][=C]',
           '[O+1][=C][Ring1][C]', '[C][I][=C]', '[B-1][=C][=C][=C]', '[C][=N+1][=C][Ring1][C]']
 F12 = "F12-alphabet-alias"
+FRESH_ELEMENTS = ["Si", "Se", "Ge", "Na", "Mg", "Al", "K", "Ca", "Ti", "V", "Cr", "Mn", "Co", "Ni", "Cu", "Zn", "Ga", "As", "Rb", "Sr",
+                  "Y", "Nb", "Mo", "Ru", "Rh", "Pd", "Ag", "Cd", "In", "Sn", "Sb", "Te", "Cs", "Ba", "W", "Re", "Os", "Ir", "Pt",
+                  "Au", "Hg", "Tl", "Pb", "Bi", "La", "Ce", "Nd", "Sm", "Eu", "Gd", "U", "Pu", "Li", "Be", "Ne", "Ar", "Kr"]
 
 
 class ApiModel(object):
@@ -96,6 +99,13 @@ class ApiModel(object):
             self.disagree("rejected-update-not-atomic", "%r (%s) changed %s" % (value, reason, what))
         else:
             self.ctx.count("atomic_rejections_verified")
+        # probes that were NOT run before the rejection (a memo filled by the 'before' observation could hide a
+        # leak): atom kinds picked fresh, judged by the reference derivation under the model table
+        for _ in range(2):
+            el = rng.choice(FRESH_ELEMENTS)
+            ch = rng.choice(["", "", "+1", "-1", "+2", "-3"])
+            p = "[%s%s]" % (el, ch) + "[Branch1][C][F]" * rng.choice([2, 5, 9]) + "[=O]"
+            self._probe(p, "fresh-probe-after-rejected-update")
 
     def op_get_table(self, rng):
         self.log.append(["get"])
@@ -166,6 +176,9 @@ class ApiModel(object):
 
     def op_probe_decode(self, rng):
         p = rng.choice(PROBES)
+        self._probe(p, "probe")
+
+    def _probe(self, p, why):
         self.log.append(["decode", p])
         r = call_guard(lambda: self.sf.decoder(p), expected=(self.sf.DecoderError,))
         self.ctx.count("ops.probe_decode")
